@@ -449,6 +449,14 @@ class World:
         self.facts_dir = facts_dir
         self.stats = {"analyses": 0, "fn_instances": 0, "block_visits": 0, "events": 0}
         self._cache = {}
+        # per-tree caches keyed by function id must not outlive the tree (the thorough tier analyses several trees in one process)
+        import sys as _sys
+        for (mn, attr) in (("absint", "_RPO"), ("absint", "_ENUM_HINT"), ("sem", "_NS_CACHE"), ("rules.C20", "_EFF"),
+                           ("rules.common", "_BORROW"), ("rules.swapcore", "_CUT")):
+            m_ = _sys.modules.get(mn)
+            c_ = getattr(m_, attr, None) if m_ is not None else None
+            if isinstance(c_, dict) and not (mn == "rules.common" and getattr(m_, "_BORROW_BUSY", None)):
+                c_.clear()
 
     def entry(self, contract, which):
         return self.F.get("%s::contract::%s" % (contract, which))
